@@ -852,8 +852,13 @@ func writeEvidence(prop string, cfg propCfg, tier string, seed uint64, a *agg, s
 		"violations":  newViol,
 	}
 	data, _ := json.MarshalIndent(ev, "", " ")
-	os.MkdirAll(filepath.Join(verifDir, "evidence"), 0o755)
-	if err := os.WriteFile(filepath.Join(verifDir, "evidence", prop+".json"), data, 0o644); err != nil {
+	evDir := filepath.Join(verifDir, "evidence")
+	if d := os.Getenv("VERIF_EVIDENCE_DIR"); d != "" {
+		// (sensitivity experiments against a modified tree must not overwrite the evidence)
+		evDir = d
+	}
+	os.MkdirAll(evDir, 0o755)
+	if err := os.WriteFile(filepath.Join(evDir, prop+".json"), data, 0o644); err != nil {
 		fatal2("%v", err)
 	}
 	if len(zero) > 0 {
